@@ -8,6 +8,7 @@ import (
 	"strings"
 
 	"github.com/bartossh/Computantis/src/accountant"
+	"github.com/bartossh/Computantis/src/spice"
 	"verif.local/harness/common"
 	"verif.local/harness/world"
 	"verif.local/vsched"
@@ -243,4 +244,159 @@ func (m *Model) lostCause(h [32]byte, dst view) string {
 
 // ---- C14: sync reproduces the peer ----
 
-func (m *Model) checkC14(post []view) []common.Violation { return nil }
+// SyncVariants are the stream shapes offered as sync events: the peer's own stream and five single corruptions.
+var SyncVariants = []string{"ok", "dup-vertex", "dup-trx", "unknown-parent", "second-self-sealed", "empty-trx"}
+
+// sync loads the spare node from node i's stream (optionally corrupted) and reports loaded / not-loaded.
+func (m *Model) sync(i int, variant string) string {
+	ctx := context.Background()
+	m.spare.Reset(ctx, m.Cfg.TruncateAt)
+	src := m.nodes[i].Book
+	var cause error
+	cancel := func(e error) {
+		if cause == nil {
+			cause = e
+		}
+	}
+	if variant == "ok" {
+		m.spare.Book.LoadDag(cancel, src.StreamDAG(ctx))
+	} else {
+		// corrupted variants use the default stream order (the corruption, not the order, is the subject)
+		oldq := vsched.Quiet(true)
+		defer vsched.Quiet(oldq)
+		var vs []*accountant.Vertex
+		ch := src.StreamDAG(ctx)
+		for {
+			v, ok := vsched.Recv2(ch)
+			if !ok || v == nil {
+				break
+			}
+			c := *v
+			vs = append(vs, &c)
+		}
+		R, A, M := world.Cast("R"), world.Cast("A"), world.Cast("M")
+		last := vs[0]
+		switch variant {
+		case "dup-vertex":
+			c := *last
+			vs = append(vs, &c)
+		case "dup-trx":
+			x := m.W.Craft(M, last.Transaction, last.Hash, last.Hash, last.Weight+1)
+			vs = append(vs, &x)
+		case "unknown-parent":
+			var ph [32]byte
+			ph[0], ph[31] = 0xAB, 0xCD
+			x := m.W.Craft(M, world.MakeTx(R, A.Addr, "c14-up", nil, sp1(), 777001), ph, ph, last.Weight+1)
+			vs = append(vs, &x)
+		case "second-self-sealed":
+			x := m.W.Craft(M, world.MakeTx(M, A.Addr, "c14-ss", nil, sp1(), 777002), last.Hash, last.Hash, last.Weight+1)
+			vs = append(vs, &x)
+		case "empty-trx":
+			t := world.MakeTx(R, A.Addr, "c14-empty", nil, spice.Melange{}, 777003)
+			x := m.W.Craft(M, t, last.Hash, last.Hash, last.Weight+1)
+			vs = append(vs, &x)
+		}
+		out := vsched.MakeChan[*accountant.Vertex](len(vs) + 1)
+		for _, v := range vs {
+			vsched.Send(out, v)
+		}
+		vsched.Close(out)
+		m.spare.Book.LoadDag(cancel, out)
+	}
+	vsched.Settle()
+	if m.spare.Book.DagLoaded() {
+		return "loaded"
+	}
+	return "not-loaded"
+}
+
+func sp1() spice.Melange { return spice.Melange{Currency: 1} }
+
+func (m *Model) checkC14(post []view) []common.Violation {
+	if m.synced == "" {
+		return nil
+	}
+	var out []common.Violation
+	R := m.W.Ref
+	variant := strings.SplitN(m.synced, "=", 2)[0]
+	src := post[m.syncSrc]
+	dst := mkView(m.spare.Book.VerifSnapshot())
+	m.counters["C14.syncs"]++
+	if variant != "ok" {
+		m.counters["C14.corrupt-streams"]++
+		if dst.S.DagLoaded {
+			out = append(out, viol("C14", "C14.all-or-nothing", "C14.loaded-corrupt-stream/"+variant, fmt.Sprintf("a stream with %s left the loading node marked as loaded", variant), nil))
+		}
+		return out
+	}
+	truncated := len(src.stored) > 0
+	cause := "other"
+	if truncated {
+		cause = "source-truncated"
+		m.counters["C14.truncated-sources"]++
+	}
+	if !dst.S.DagLoaded {
+		out = append(out, viol("C14", "C14.same-ledger", "C14.not-loaded/"+cause, fmt.Sprintf("syncing from node %d left the joining node not loaded (%d live, %d checkpointed vertices at the source)", m.syncSrc, len(src.live), len(src.stored)), nil))
+		return out
+	}
+	for h, x := range src.all() {
+		y, ok := dst.all()[h]
+		if !ok || !sameVertex(x, y) {
+			out = append(out, viol("C14", "C14.same-ledger", "C14.vertex-missing/"+cause, fmt.Sprintf("joining node lacks (or altered) %s held by the peer", R.Name(h)), nil))
+			break
+		}
+	}
+	for h := range dst.all() {
+		if !src.has(h) {
+			out = append(out, viol("C14", "C14.same-ledger", "C14.vertex-extra/"+cause, fmt.Sprintf("joining node holds %s which the peer does not", R.Name(h)), nil))
+			break
+		}
+	}
+	se, de := map[string]bool{}, map[string]bool{}
+	for _, e := range src.S.Edges {
+		se[R.Name(e[0])+">"+R.Name(e[1])] = true
+	}
+	for _, e := range dst.S.Edges {
+		de[R.Name(e[0])+">"+R.Name(e[1])] = true
+	}
+	if len(se) != len(de) {
+		out = append(out, viol("C14", "C14.same-ledger", "C14.edges-differ/"+cause, fmt.Sprintf("peer has %d parent links, joining node %d", len(se), len(de)), nil))
+	} else {
+		for e := range se {
+			if !de[e] {
+				out = append(out, viol("C14", "C14.same-ledger", "C14.edges-differ/"+cause, "joining node lacks parent link "+e, nil))
+				break
+			}
+		}
+	}
+	if src.S.Genesis != dst.S.Genesis {
+		out = append(out, viol("C14", "C14.genesis", "C14.genesis-wallet-differs/"+cause, fmt.Sprintf("peer's genesis wallet is %s, joining node took %s", world.AddrName(src.S.Genesis), world.AddrName(dst.S.Genesis)), nil))
+	}
+	// balances tip by tip
+	for _, tip := range src.S.Leaves {
+		for _, a := range m.addresses() {
+			want := m.refBalance(src, tip, a)
+			got, err := m.balanceOn(m.spare, R.Name(tip), a)
+			m.counters["C14.balance-queries"]++
+			if (want.Sign() < 0) != (err != nil) || (err == nil && world.Big(got).Cmp(want) != 0) {
+				out = append(out, viol("C14", "C14.balances", "C14.balance-differs/"+cause, fmt.Sprintf("balance of %s over tip %s: peer %s, joining node %v (err %v)", world.AddrName(a), R.Name(tip), want, world.Big(got), err), nil))
+			}
+		}
+	}
+	// identical verdicts on follow-up gossip (mutating: last)
+	for k, x := range m.produced {
+		if src.has(x.Hash) {
+			continue
+		}
+		c1, c2 := x, x
+		r1 := world.ErrClass(m.nodes[m.syncSrc].Book.AddLeaf(context.Background(), &c1))
+		vsched.Settle()
+		r2 := world.ErrClass(m.spare.Book.AddLeaf(context.Background(), &c2))
+		vsched.Settle()
+		m.counters["C14.follow-ups"]++
+		if r1 != r2 {
+			out = append(out, viol("C14", "C14.same-decisions", "C14.follow-up-verdict-differs/"+cause, fmt.Sprintf("vertex #%d %s: peer answers %s, joining node %s", k, R.Name(x.Hash), r1, r2), nil))
+		}
+	}
+	return out
+}
